@@ -174,18 +174,38 @@ func (g *sg) rangeLoop(env *sgEnv, s *ast.RangeStmt, after lcont, ctx *sgCtx) (s
 	if s.Tok != token.DEFINE {
 		return "", fmt.Errorf("unsupported range loop (no :=)")
 	}
+	indexOnly := false // for i := range s {}  (ring helpers)
 	if s.Key != nil {
 		if id, ok := s.Key.(*ast.Ident); !ok || id.Name != "_" {
-			return "", fmt.Errorf("unsupported range loop (index variable)")
+			if !ok || !g.rh || s.Value != nil {
+				return "", fmt.Errorf("unsupported range loop (index variable)")
+			}
+			indexOnly = true
 		}
 	}
 	val, ok := s.Value.(*ast.Ident)
+	if indexOnly {
+		val, ok = s.Key.(*ast.Ident)
+	}
 	if !ok || val.Name == "_" {
 		return "", fmt.Errorf("unsupported range loop (no element variable)")
 	}
 	bodyEnv := env.clone()
 	var binds []string
 	var list, elTy string
+	if g.rh {
+		list, elTy = g.rhRangeSource(env, s.X)
+	}
+	if indexOnly {
+		v, err := g.expr(env, s.X, &binds)
+		if err != nil {
+			return "", err
+		}
+		if _, ok := sgElem(v.ty); !ok {
+			return "", fmt.Errorf("range over %s", v.ty)
+		}
+		list, elTy = "(zseq (length "+v.code+"))", stInt
+	}
 	if c, ok := s.X.(*ast.CallExpr); ok && len(c.Args) == 0 {
 		if sel, ok := c.Fun.(*ast.SelectorExpr); ok && sel.Sel.Name == "Keys" {
 			if x, ok := sel.X.(*ast.Ident); ok && env.vars[x.Name] == stSeqmap {
